@@ -85,14 +85,14 @@ ENTRIES = [
     E("trend.Rma", [("rma", "Rma(c, {0})", 0)], [(1,), (2,), (3,)], [(4,), (5,)]),
     E("trend.Smma", [("smma", "Smma(c, {0})", 0)], [(2,), (3,)], [(1,), (5,)]),
     E("trend.Wma", [("wma", "Wma(c, {0})", 0)], [(1,), (2,), (3,)], [(4,), (5,)]),
-    E("trend.Apo", [("apo", "Apo(c, {0}, {1})", 0)], [(2, 3), (2, 2), (1, 3)], [(3, 5), (2, 5)]),
+    E("trend.Apo", [("apo", "Apo(c, {0}, {1})", 0, "ApoAsCoded(c, {0}, {1})")], [(2, 3), (2, 2), (1, 3)], [(3, 5), (2, 5)]),
     E("trend.Macd", [("macd", "Macd(c, {0}, {1})", 0), ("signal", "MacdSignal(c, {0}, {1}, {2})", 1)],
       [(2, 3, 2), (1, 3, 2), (2, 2, 3)], [(3, 5, 2), (2, 4, 3)]),
-    E("trend.Dema", [("dema", "Dema(c, {0}, {1})", 0)], [(2, 2), (2, 3), (3, 1)], [(3, 3), (1, 4)]),
+    E("trend.Dema", [("dema", "Dema(c, {0}, {1})", 0, "DemaAsCoded(c, {0}, {1})")], [(2, 2), (2, 3), (3, 1)], [(3, 3), (1, 4)]),
     E("trend.Tema", [("tema", "Tema(c, {0}, {1}, {2})", 0)], [(2, 2, 2), (1, 2, 3)], [(3, 3, 3), (3, 2, 1)]),
     E("trend.Trima", [("trima", "Trima(c, {0})", 0)], [(2,), (3,), (4,)], [(5,), (6,), (7,)]),
     E("trend.Trix", [("trix", "Trix(c, {0})", 0)], [(2,), (3,)], [(1,)], extra=3),
-    E("trend.Tsi", [("tsi", "Tsi(c, {0}, {1})", 0)], [(2, 2), (3, 2), (2, 3)], [(1, 3), (4, 2)]),
+    E("trend.Tsi", [("tsi", "Tsi(c, {0}, {1})", 0, "TsiAsCoded(c, {0}, {1})")], [(2, 2), (3, 2), (2, 3)], [(1, 3), (4, 2)]),
     E("trend.TypicalPrice", [("tp", "TypicalPrice(h, l, c)", 0)], [()]),
     E("trend.WeightedClose", [("wc", "WeightedClose(h, l, c)", 0)], [()]),
     E("trend.Bop", [("bop", "Bop(o, h, l, c)", 0)], [()], c15=[rng("bop", "Bop(o, h, l, c)", -1, 1)]),
@@ -102,7 +102,7 @@ ENTRIES = [
       [(1,), (2,), (3,)], [(4,)], c15=[ordered("EnvUpper(Ema(c, {0}), 20)", "Ema(c, {0})", "EnvLower(Ema(c, {0}), 20)")]),
     E("trend.Hma", [("hma", "Hma(c, {0}, 2, 2)", 0)], [(4,)], []),
     E("trend.Vwma", [("vwma", "Vwma(c, v, {0})", 0)], [(1,), (2,), (3,)], [(4,)]),
-    E("trend.Aroon", [("up", "AroonUp(h, {0})", 0), ("down", "AroonDown(l, {0})", 1)], [(2,), (3,), (4,)], [(5,)],
+    E("trend.Aroon", [("up", "AroonUp(h, {0})", 0, "AroonAsCoded(h, {0}, TRUE)"), ("down", "AroonDown(l, {0})", 1, "AroonAsCoded(l, {0}, FALSE)")], [(2,), (3,), (4,)], [(5,)],
       c15=[rng("up", "AroonUp(h, {0})", 0, 100, 0), rng("down", "AroonDown(l, {0})", 0, 100, 1)]),
     E("trend.Cci", [("cci", "Cci(h, l, c, {0})", 0)], [(2,), (3,)], [(1,), (4,)]),
     E("trend.Kdj", [("k", "KdjK(h, l, c, {0}, {2})", 0), ("d", "KdjD(h, l, c, {0}, {2}, {3})", 1), ("j", "KdjJ(h, l, c, {0}, {2}, {3})", 2)],
@@ -161,14 +161,14 @@ ENTRIES = [
     E("volatility.SuperTrend/Ema", [("supertrend", "SuperTrend(h, l, c, Ema(Tr(h, l, c), {0}), Q(5, 2))", 0)], [(1,), (3,)], []),
     E("volatility.SuperTrend", [("supertrend", "SuperTrend(h, l, c, Hma(Tr(h, l, c), {0}, 2, 2), Q(5, 2))", 0)], [(4,)], []),
     E("volatility.Atr/Hma", [("atr", "Hma(Tr(h, l, c), {0}, 2, 2)", 0)], [(4,)], []),
-    E("volatility.UlcerIndex", [("ui^2", "UlcerSq(c, {0})", lambda o: sq(o[0]))], [(1,), (2,), (3,)], [(4,)], c15=[nonneg("ulcer index", "UlcerSq(c, {0})")]),
+    E("volatility.UlcerIndex", [("ui^2", "UlcerSq(c, {0})", lambda o: sq(o[0]), "UlcerSqAsCoded(c, {0})")], [(1,), (2,), (3,)], [(4,)], c15=[nonneg("ulcer index", "UlcerSq(c, {0})")]),
     # ---- volume
     E("volume.Mfm", [("mfm", "Mfm(h, l, c)", 0)], [()], c15=[rng("mfm", "Mfm(h, l, c)", -1, 1)]),
     E("volume.Mfv", [("mfv", "Mfv(h, l, c, v)", 0)], [()]),
     E("volume.Ad", [("ad", "Ad(h, l, c, v)", 0)], [()]),
     E("volume.Cmf", [("cmf", "Cmf(h, l, c, v, {0})", 0)], [(1,), (2,), (3,)], [(4,)], c15=[rng("cmf", "Cmf(h, l, c, v, {0})", -1, 1)]),
-    E("volume.Emv", [("emv", "Emv(h, l, v, {0})", 0)], [(1,), (2,), (3,)], [], note="volume unit 100000000"),
-    E("volume.Fi", [("fi", "Fi(c, v, {0})", 0)], [(1,), (2,), (3,)], [(4,)]),
+    E("volume.Emv", [("emv", "Emv(h, l, v, {0})", 0, "EmvAsCoded(h, l, v, {0})")], [(1,), (2,), (3,)], [], note="volume unit 100000000"),
+    E("volume.Fi", [("fi", "Fi(c, v, {0})", 0, "FiAsCoded(c, v, {0})")], [(1,), (2,), (3,)], [(4,)]),
     E("volume.Mfi", [("mfi", "Mfi(h, l, c, v, {0})", 0)], [(1,), (2,), (3,)], [(4,)], c15=[rng("mfi", "Mfi(h, l, c, v, {0})", 0, 100)]),
     E("volume.Nvi", [("nvi", "Nvi(c, v)", 0)], [()]),
     E("volume.Vpt", [("vpt", "Vpt(c, v)", 0)], [()]),
@@ -225,10 +225,11 @@ def tla_module(items):
         names = [NAMES[n] for n in it["inputs"]]
         al = "{" + ", ".join("<<" + ", ".join(str(x) for x in t) + ">>" for t in it["alpha"]) + "}"
         lets = " ".join("%s == Ser([i \\in 1..%d |-> w[i][%d]])" % (nm, it["L"], j + 1) for j, nm in enumerate(names))
-        outs = ", ".join("Out(" + ex.format(*it["cfg"]) + ")" for _, ex, _ in e["outs"])
+        outs = ", ".join("Out(" + o[1].format(*it["cfg"]) + ")" for o in e["outs"])
+        alts = ", ".join(("Out(" + o[3].format(*it["cfg"]) + ")") if len(o) > 3 else "Out(Empty)" for o in e["outs"])
         ths = ", ".join("(" + th.format(*it["cfg"]) + ")" for _, th, _ in e["c15"])
-        lines.append("ASSUME \\A w \\in Words(%s, %d) : LET %s IN PrintT(\"F \" \\o ToJson([k |-> %d, w |-> w, out |-> <<%s>>, th |-> <<%s>>]))"
-                     % (al, it["L"], lets, k, outs, ths))
+        lines.append("ASSUME \\A w \\in Words(%s, %d) : LET %s IN PrintT(\"F \" \\o ToJson([k |-> %d, w |-> w, out |-> <<%s>>, alt |-> <<%s>>, th |-> <<%s>>]))"
+                     % (al, it["L"], lets, k, outs, alts, ths))
     lines.append("====")
     return "\n".join(lines) + "\n"
 
